@@ -82,7 +82,7 @@ type HistRunner struct {
 	// per history
 	expungeDuring map[string]int
 	followUp      []string // steps the generator has committed to emit next (multi-step patterns)
-	racy          bool // X RACY seen: session commands do not wait for in-flight updates
+	racy          bool     // X RACY seen: session commands do not wait for in-flight updates
 }
 
 func mboxID(name string) imap.MailboxID {
@@ -282,6 +282,8 @@ func (h *HistRunner) exec1(step string) error {
 			return h.converge()
 		case "RACY":
 			h.racy = true
+		case "IDLEBULK":
+			// server option, read by runHistory before the server is started; a no-op as a step
 		}
 		return nil
 	case f[0] == "C":
@@ -926,6 +928,29 @@ func (h *HistRunner) GenStep(r *Rng, nsess int, profile string) string {
 		}
 		return fmt.Sprintf("S%d CMD CLOSE CLOSE", i)
 	case c < 98:
+		if r.Chance(1, 2) {
+			// pattern: a change arrives while the session idles and DONE follows at once (well inside the bulk period when
+			// the server buffers IDLE pushes): whatever was buffered must be announced before the view is used again
+			var change string
+			switch r.Intn(3) {
+			case 0:
+				change = fmt.Sprintf("C CREATE %s %s -", h.newMarker(), s.selected)
+			case 1:
+				change = fmt.Sprintf("S%d APPEND %s - %s", (i+1)%nsess, s.selected, h.newMarker())
+			}
+			if j := (i + 1) % nsess; n > 0 && j != i && h.sess[j] != nil && h.sess[j].selected == s.selected && !h.sess[j].idle && !h.sess[j].readOnly && len(h.sess[j].mirror.msgs) > 0 {
+				k := r.Range(1, min(n, len(h.sess[j].mirror.msgs)))
+				change = fmt.Sprintf("S%d CMD STORE STORE %d %s (%s)", j, k, Pick(r, []string{"+FLAGS", "-FLAGS"}), Pick(r, []string{`\Deleted`, `\Flagged`, `\Seen`}))
+				if r.Chance(1, 3) {
+					h.followUp = append(h.followUp, change, fmt.Sprintf("S%d CMD EXPUNGE EXPUNGE", j))
+					change = ""
+				}
+			}
+			if change != "" {
+				h.followUp = append(h.followUp, change)
+			}
+			h.followUp = append(h.followUp, "X BARRIER", fmt.Sprintf("S%d DONE", i), fmt.Sprintf("S%d PROBE", i))
+		}
 		return fmt.Sprintf("S%d IDLE", i)
 	default:
 		return fmt.Sprintf("S%d SELECT %s", i, Pick(r, h.mboxes))
